@@ -148,6 +148,9 @@ EXTRA_KW = [
     "bufsize=-zz_n",               # unary operators on names / literals among the other arguments
     "timeout=-1, bufsize=+zz_n",
     "umask=~zz_m, close_fds=not zz_c",
+    "executable='/bin/bash'",      # other keywords that name a program or a path do not take part in any decision
+    "executable='sh', cwd='/usr/bin'",
+    "executable=zz_exe, env={'PATH': '/bin'}",
 ]
 
 LAYOUTS = ["single", "kw_line", "value_line", "leading_kw_star"]
